@@ -29,7 +29,7 @@ inductive Res (α : Type) where
   | err (e : TErr)
   | panic (site : String)
   | fuel
-deriving Repr, Inhabited
+deriving Repr, Inhabited, DecidableEq
 
 namespace Res
 @[inline] def bind {α β : Type} (x : Res α) (f : α → Res β) : Res β :=
@@ -201,7 +201,7 @@ def underscore : Datum := .sym ['_']
 def defaultEllipsis : Datum := .sym ['.', '.', '.']
 
 /-- `cell!["syntax-rules"]` -/
-def syntaxRulesSym : Datum := .sym "syntax-rules".toList
+def syntaxRulesSym : Datum := .sym ['s','y','n','t','a','x','-','r','u','l','e','s']
 
 /-- `peek() == Some(&x)` on the model of a peekable iterator -/
 def peekIs (x : Datum) : List Datum → Bool
